@@ -67,6 +67,8 @@ class Coder:
         return g
 
     def _guard(self, ch, t):
+        if t.get('ekey'):
+            return 'HE(%r, event)' % t['ekey']
         if t.get('gkey'):
             return 'H(%r)' % t['gkey']
         if t.get('tguard') and t['tguard'].get('plain'):
